@@ -40,6 +40,20 @@ type Cfg struct {
 	// per file ; sub 'sub/*.txt' (files in a sub-directory) ; rec '**/*.txt' (files in a sub-directory).
 	// A rendering variant: the specification talks about the set of files, not about its spelling.
 	Pat string `json:"pat,omitempty"`
+	// Big: the source files are larger than any read buffer (160 KiB of padding, the distinguishing byte at the end)
+	Big bool `json:"big,omitempty"`
+	// NoDesc: the tasks have no description and there is a default task: --list has nothing to list (and must not
+	// do anything else)
+	NoDesc bool `json:"nodesc,omitempty"`
+}
+
+var padding = strings.Repeat("0123456789abcde\n", 10240)
+
+func (c Cfg) content(v string) []byte {
+	if c.Big {
+		return []byte(padding + v + "\n")
+	}
+	return []byte(v + "\n")
 }
 
 var readOnlyMode = map[string]bool{"dry": true, "status": true, "list": true, "listjson": true, "summary": true, "drydir": true, "dryfailpre": true, "dryforce": true}
@@ -175,7 +189,11 @@ func taskfile(c Cfg) string {
 	b.WriteString("version: '3'\nsilent: true\ntasks:\n")
 	t, u := names(c)
 	for _, n := range []string{t, u} {
-		fmt.Fprintf(&b, "  '%s':\n    desc: task %s\n    method: %s\n%s", n, n, c.Method, c.sourcesYAML())
+		desc := fmt.Sprintf("    desc: task %s\n", n)
+		if c.NoDesc {
+			desc = ""
+		}
+		fmt.Fprintf(&b, "  '%s':\n%s    method: %s\n%s", n, desc, c.Method, c.sourcesYAML())
 		if c.Gen {
 			// two entries, the second a brace pattern: every generated file has to exist, not just one of them
 			b.WriteString("    generates: [out.gen, 'extra{1,2}.gen']\n")
@@ -198,7 +216,11 @@ func taskfile(c Cfg) string {
 		}
 		b.WriteString("      - echo 2 >> \"$TRACE\"\n      - test ! -f \"$CTL/fail2\"\n      - test ! -f \"$CTL/kill2\" || sh -c 'kill -KILL $PPID'\n")
 	}
+	if c.NoDesc {
+		fmt.Fprintf(&b, "  default:\n    deps: ['%s']\n", t)
+	}
 	fmt.Fprintf(&b, "  wrapdep:\n    deps: ['%s']\n", t)
+	fmt.Fprintf(&b, "  retry:\n    ignore_error: true\n    cmds:\n      - task: '%s'\n      - task: '%s'\n", t, t)
 	fmt.Fprintf(&b, "  wrap:\n    deps: ['%s', sib]\n  sib:\n    cmds:\n      - sleep 0.7; exit 1\n", t)
 	b.WriteString("  pre:\n    preconditions:\n      - test ! -f \"$CTL/failpre\"\n")
 	b.WriteString("  d:\n    dir: ./newdir\n    status: ['test -f nope']\n    cmds:\n      - echo 3 >> \"$TRACE\"\n")
@@ -250,7 +272,7 @@ func Execute(h *History) error {
 				continue
 			}
 			p := filepath.Join(proj, rel)
-			os.WriteFile(p, []byte("1\n"), 0o644)
+			os.WriteFile(p, h.Cfg.content("1"), 0o644)
 			os.Chtimes(p, old, old)
 		}
 	}
@@ -272,18 +294,18 @@ func Execute(h *History) error {
 			switch s.Op {
 			case "edit":
 				b, _ := os.ReadFile(p)
-				nb := "2\n"
-				if strings.TrimSpace(string(b)) == "2" {
-					nb = "1\n"
+				nb := "2"
+				if strings.HasSuffix(strings.TrimSpace(string(b)), "2") {
+					nb = "1"
 				}
-				os.WriteFile(p, []byte(nb), 0o644)
+				os.WriteFile(p, h.Cfg.content(nb), 0o644)
 			case "touch":
 				now := time.Now()
 				os.Chtimes(p, now, now)
 			case "add":
-				os.WriteFile(p, []byte("1\n"), 0o644)
+				os.WriteFile(p, h.Cfg.content("1"), 0o644)
 			case "addold":
-				os.WriteFile(p, []byte("1\n"), 0o644)
+				os.WriteFile(p, h.Cfg.content("1"), 0o644)
 				o := time.Now().Add(-2 * time.Hour)
 				os.Chtimes(p, o, o)
 			case "rm":
@@ -323,6 +345,9 @@ func Execute(h *History) error {
 			case "forcefail1":
 				args = []string{t, "--force"}
 				ctlFile = filepath.Join(ctl, "fail1")
+			case "retryfail1":
+				args = []string{"retry"}
+				ctlFile = filepath.Join(ctl, "fail1")
 			case "prompt":
 				args = []string{t}
 				yes = false
@@ -339,7 +364,7 @@ func Execute(h *History) error {
 				args = []string{t, "--status"}
 			case "list": // --list-all and --list (every task has a description) alternate: the specification says "a listing"
 				args = []string{"--list-all"}
-				if (i+len(h.Steps))%2 == 1 {
+				if (i+len(h.Steps))%2 == 1 || h.Cfg.NoDesc {
 					args = []string{"--list"}
 				}
 				yes = false
@@ -386,6 +411,10 @@ func Execute(h *History) error {
 			}
 			if timedOut {
 				return fmt.Errorf("task %v timed out", args)
+			}
+			if h.Cfg.NoDesc && (s.Mode == "list" || s.Mode == "listjson") && s.Exit == 1 && len(args) > 0 && args[0] == "--list" {
+				// "nothing to list" is the documented outcome of --list when no task has a description
+				s.Exit = 0
 			}
 			after := snapshot(proj)
 			s.Diff = before != after
@@ -457,7 +486,7 @@ func (w *world) apply(s Step, c Cfg) {
 var fileOps = []Step{{Op: "edit", F: "a"}, {Op: "touch", F: "a"}, {Op: "add", F: "b"}, {Op: "addold", F: "b"}, {Op: "rm", F: "a"},
 	{Op: "ren", F: "a", G: "b"}, {Op: "edit", F: "x"}, {Op: "touch", F: "x"}, {Op: "rm", F: "x"}, {Op: "rmgen"}, {Op: "flip"}}
 
-var allModes = []string{"run", "other", "fail1", "fail2", "failpre", "depfail1", "forcefail1", "cancelsib", "kill1", "kill2", "prompt", "force", "dry", "status", "list", "listjson", "summary", "drydir", "dryfailpre", "dryforce"}
+var allModes = []string{"run", "other", "fail1", "fail2", "failpre", "depfail1", "forcefail1", "retryfail1", "cancelsib", "kill1", "kill2", "prompt", "force", "dry", "status", "list", "listjson", "summary", "drydir", "dryfailpre", "dryforce"}
 
 func inv(m string) Step { return Step{Op: "inv", Mode: m} }
 
@@ -507,6 +536,8 @@ func Systematic() []History {
 		if st, ok := valid(c, steps); ok {
 			n++
 			c.Pat = pats[(n+int(rep.Seed()))%len(pats)]
+			c.Big = (n/len(pats))%3 == 1
+			c.NoDesc = (n/len(pats))%4 == 2
 			hs = append(hs, History{ID: fmt.Sprintf("s%d", n), Cfg: c, Steps: st})
 		}
 	}
@@ -537,6 +568,8 @@ func Random(r *rand.Rand, n int, maxLen int) []History {
 	for len(hs) < n {
 		c := cs[r.Intn(len(cs))]
 		c.Pat = pats[r.Intn(len(pats))]
+		c.Big = r.Intn(3) == 0
+		c.NoDesc = r.Intn(4) == 0
 		w := &world{c: map[string]int{"a": 1, "b": 0, "x": 1}}
 		var steps []Step
 		L := 4 + r.Intn(maxLen-3)
@@ -573,7 +606,7 @@ type Verdict struct {
 	Drift string
 }
 
-var verdictRe = regexp.MustCompile(`^"VERDICT\|([^|]*)\|(.*)\|(.*)"$`)
+var verdictRe = regexp.MustCompile(`^"VERDICT\|([^|]*)\|(\{.*\})\|(\{.*\})"$`)
 var violRe = regexp.MustCompile(`\[prop \|-> \\?"([^"\\]+)\\?", sig \|-> \\?"([^"\\]+)\\?"\]`)
 
 func Evaluate(hs []History) (map[string]Verdict, int64, error) {
@@ -639,7 +672,7 @@ func Pretty(h History) string {
 		}
 	}
 	c := h.Cfg
-	return fmt.Sprintf("[%s gen=%v status=%v prompt=%v collide=%v reinclude-x=%v sources-as=%q] %s", c.Method, c.Gen, c.Status, c.Prompt, c.Collide || c.Label, c.Reinc, c.Pat, strings.Join(p, " ; "))
+	return fmt.Sprintf("[%s gen=%v status=%v prompt=%v collide=%v reinclude-x=%v sources-as=%q big=%v nodesc=%v] %s", c.Method, c.Gen, c.Status, c.Prompt, c.Collide || c.Label, c.Reinc, c.Pat, c.Big, c.NoDesc, strings.Join(p, " ; "))
 }
 
 var _ = runtime.NumCPU
